@@ -145,6 +145,11 @@ def gen(r, tier):
     else:
         scn["crash"] = {"mode": "sample", "n": 10, "torn": 1, "double": 1}
     if r.chance(0.3):
+        # the context is used from inside a running asyncio event loop (as the library does): several operations happen
+        # within one loop iteration, the loop gets to run its callbacks only where the application awaits -- and
+        # whatever it has queued and not yet run when the process dies is lost with it
+        scn["loop"] = {"yield_after": sorted(i for i in range(len(scn["ops"])) if r.chance(0.4))}
+    if r.chance(0.3):
         # how far the host's wall clock moves from one incarnation to the next (default: not at all -- restarts
         # within one second; also backwards, and jumps)
         scn["wall_steps"] = [r.choice([0.0, 0.3, 1.0, 2.5, 3600.0, -1.0, -3600.0]) for _ in range(r.randint(1, 3))]
@@ -786,6 +791,9 @@ class Run:
                     first = self.fs.step + 1
                     self.load()
                     self.op_steps.append((-1, first, self.fs.step))
+                    if self.scn.get("loop"):
+                        self.run_in_loop(ops)
+                        ops = []
                     for i, op in enumerate(ops):
                         if self.ended or self.N is None:
                             break
@@ -809,6 +817,56 @@ class Run:
         if self.fs.io_fired:
             self.probe("io_error_fired", len(self.fs.io_fired))
         return self
+
+
+    def run_in_loop(self, ops):
+        """The operations of every incarnation run inside a coroutine on an event loop of the incarnation's own (no
+        I/O, no timers: callbacks run first-in first-out, nothing is left to chance); it runs its queued callbacks only
+        where the scenario says the application awaits.  A crash ends the coroutine and the loop is closed with
+        whatever was still queued."""
+        import asyncio
+        F = self.F
+        yields = set(self.scn["loop"].get("yield_after") or [])
+        state = {"i": 0}
+        self.probe("inside_event_loop")
+
+        def incarnation_over():
+            return state["i"] >= len(ops) or self.ended or self.N is None
+
+        while not incarnation_over():
+            loop = asyncio.new_event_loop()
+            in_callbacks = []
+            loop.set_exception_handler(lambda l, ctx: in_callbacks.append(ctx.get("exception")))
+
+            async def incarnation():
+                while not incarnation_over():
+                    i = state["i"]
+                    op = ops[i]
+                    state["i"] = i + 1
+                    self.opidx = i
+                    first = self.fs.step + 1
+                    self.log.append(("op", i, op[0]))
+                    try:
+                        self.do(op)
+                    except F.Crash:
+                        return "crash"
+                    finally:
+                        self.op_steps.append((i, first, self.fs.step))
+                    if i in yields or i >= len(ops) - len(EPILOGUE):
+                        await asyncio.sleep(0)
+                        if any(isinstance(e, F.Crash) for e in in_callbacks):
+                            return "crash"  # died inside something the loop ran for the library
+                        if in_callbacks:
+                            self.probe("exception_in_loop_callback")
+                            del in_callbacks[:]
+                return None
+
+            try:
+                how = loop.run_until_complete(incarnation())
+            finally:
+                loop.close()  # what was queued and has not run dies with the process
+            if how == "crash":
+                self.after_crash("op")
 
 
 # ------------------------------------------------------------------ crash plans
